@@ -690,9 +690,9 @@ def stabilizer_entropy(gs, mask):
     if L == N: # state is pure
         entropy = z2rank(acq_mat(gs_across_sub))//2
     else:
-        strict = numpy.sum(inside) - numpy.sum(across)
-        hidden = z2rank(gs_across_sub) - z2rank(acq_mat(gs_across_sub))
-        entropy = numpy.sum(mask) - strict - hidden
+        # stabilizers supported inside = kernel of the restriction to the complement
+        supported = L - z2rank(gs[:, ~mask2])
+        entropy = numpy.sum(mask) - supported
     return entropy
 
 # ---- Z2 linear algebra ----
